@@ -294,7 +294,7 @@ def sweep(model: SrcModel, trees: List[Any], parallel: bool = True):
     """[(tree, problems, analysis error|None)]"""
     if not parallel or len(trees) < 64:
         return _worker((str(model.repo), tuple(sorted(model.overlay.items())), trees))
-    workers = min(16, os.cpu_count() or 4)
+    workers = int(os.environ.get("VSTAT_WORKERS") or min(16, os.cpu_count() or 4))
     chunks = [trees[i::workers * 4] for i in range(workers * 4)]
     jobs = [(str(model.repo), tuple(sorted(model.overlay.items())), c) for c in chunks if c]
     out = []
